@@ -77,6 +77,7 @@ type Exec struct {
 	history  bool // second run of a two-history harness: vrt.HistoryStep() is true
 	observes []observeRec
 	frameExempt map[*Object]bool
+	fixedStr map[string]string // self-test: string inputs fixed to constants
 	fixed  map[string]int64 // cube splitting: labels fixed to constants in this run
 }
 
@@ -228,6 +229,9 @@ func (ex *Exec) callFunction(fn *ssa.Function, args []Value, bind []Value, g *Te
 	ex.depth++
 	defer func() { ex.depth-- }()
 	ex.funcsSeen[fn.String()] = true
+	if os.Getenv("SYMGO_DEBUG_HIST") != "" && ex.depth == 2 && !g.IsTrue() {
+		fmt.Fprintf(os.Stderr, "CALL %s under guard %v\n", fn.Name(), g.str(3))
+	}
 	fr := &frame{ex: ex, fn: fn, env: map[ssa.Value]Value{}, edges: map[*ssa.BasicBlock][]edge{}, base: g}
 	if len(args) != len(fn.Params) {
 		panic(fmt.Sprintf("arity mismatch calling %s: %d vs %d", fn, len(args), len(fn.Params)))
@@ -506,6 +510,12 @@ func (ex *Exec) newObjectOf(t types.Type, name string) *PtrVal {
 		}
 		return ptrTo(o, -1)
 	case *types.Array:
+		if bt, ok := u.Elem().Underlying().(*types.Basic); ok && bt.Kind() == types.Uint8 {
+			// byte arrays are abstract byte buffers (content = a string term)
+			o := ex.heap.newObj(KBuilder, t, 1, "bytebuf")
+			o.cells[0] = Str("")
+			return ptrTo(o, -1)
+		}
 		o := ex.heap.newObj(KArray, t, int(u.Len()), name)
 		for i := range o.cells {
 			o.cells[i] = ex.zeroValue(u.Elem())
@@ -848,6 +858,17 @@ func (fr *frame) step(ins ssa.Instruction, lg *Term, b *ssa.BasicBlock) {
 			fv.Bind = append(fv.Bind, fr.eval(bnd))
 		}
 		fr.env[x] = fv
+	case *ssa.MakeSlice:
+		st, _ := x.Type().Underlying().(*types.Slice)
+		bt, isB := st.Elem().Underlying().(*types.Basic)
+		ln := fr.term(x.Len)
+		if st == nil || !isB || bt.Kind() != types.Uint8 || ln.op != OpConst {
+			unsupported("make of %v at %s", x.Type(), where())
+		}
+		o := ex.heap.newObj(KBuilder, nil, 1, "bytebuf")
+		o.born = g
+		o.cells[0] = Str("")
+		fr.env[x] = &BytesVal{Obj: o, N: ln, Cap: int(ln.i)}
 	case *ssa.MakeMap:
 		o := ex.heap.newObj(KMap, x.Type(), 0, "map")
 		o.born = g
@@ -947,7 +968,28 @@ func (fr *frame) slice(x *ssa.Slice, g *Term, where string) Value {
 		return t.i
 	}
 	switch base := fr.eval(x.X).(type) {
+	case *BytesVal:
+		if x.Low != nil {
+			unsupported("byte slice with a low bound at %s", where)
+		}
+		n := base.N
+		if x.High != nil {
+			n = fr.term(x.High)
+		}
+		return &BytesVal{Obj: base.Obj, N: n, Cap: base.Cap}
 	case *PtrVal: // pointer to array
+		if len(base.T) == 1 && base.T[0].Obj != nil && base.T[0].Obj.name == "bytebuf" {
+			o := base.T[0].Obj
+			capN := int(o.typ.Underlying().(*types.Array).Len())
+			if x.Low != nil {
+				unsupported("byte slice with a low bound at %s", where)
+			}
+			n := BV(int64(capN))
+			if x.High != nil {
+				n = fr.term(x.High)
+			}
+			return &BytesVal{Obj: o, N: n, Cap: capN}
+		}
 		if len(base.T) != 1 || base.T[0].Obj == nil || base.T[0].Obj.kind != KArray {
 			unsupported("slice of non-array pointer at %s", where)
 		}
@@ -1098,6 +1140,10 @@ func (fr *frame) binop(x *ssa.BinOp, where string) Value {
 			eq = av.Nil
 		} else if av.Nil.IsTrue() {
 			eq = bv.Nil
+		} else if i, ok := singleIdentity(bv); ok {
+			eq = And(Not(av.Nil), av.bit(i))
+		} else if i, ok := singleIdentity(av); ok {
+			eq = And(Not(bv.Nil), bv.bit(i))
 		} else {
 			unsupported("comparison of two non-nil errors at %s", where)
 		}
@@ -1286,6 +1332,9 @@ func (ex *Exec) externGlobal(gl *ssa.Global) (Value, bool) {
 	if path == "golang.org/x/text/language" && isTagType(gl.Type().(*types.Pointer).Elem()) {
 		return ex.tagConst(gl.Name()), true
 	}
+	if path == "io" && gl.Name() == "EOF" {
+		return ex.eofErr(), true
+	}
 	if strings.HasPrefix(path, modulePath) {
 		return nil, false
 	}
@@ -1300,4 +1349,23 @@ func (ex *Exec) tagConst(name string) *Term {
 		ex.tagIDs[name] = id
 	}
 	return BV(id)
+}
+
+// singleIdentity: e is a constant non-nil error with exactly one identity (a sentinel such as io.EOF)
+func singleIdentity(e *ErrVal) (int, bool) {
+	if !e.Nil.IsFalse() {
+		return 0, false
+	}
+	idx := -1
+	for i, b := range e.Bits {
+		if b.IsTrue() {
+			if idx >= 0 {
+				return 0, false
+			}
+			idx = i
+		} else if !b.IsFalse() {
+			return 0, false
+		}
+	}
+	return idx, idx >= 0
 }
